@@ -137,7 +137,7 @@ func (this *Hnsw) Insert(id uuid.UUID, value math.Vector, metadata Metadata, ver
 
 	entrypoint = (*hnswVertex)(atomic.LoadPointer(&this.entrypoint))
 	if entrypoint != nil && vertex.level > entrypoint.level {
-		atomic.CompareAndSwapPointer(&this.entrypoint, this.entrypoint, unsafe.Pointer(vertex))
+		atomic.CompareAndSwapPointer(&this.entrypoint, unsafe.Pointer(entrypoint), unsafe.Pointer(vertex))
 	}
 
 	return nil
